@@ -211,6 +211,10 @@ func runRefCase(id int, c refCase, prog []string) (o *refObs) {
 			}
 		}
 		st.Text, st.JSON = ascii(st.Text), ascii(st.JSON)
+		// every conversion preserves the value: its JSON form never changes along the program
+		if st.OK && len(o.Steps) > 0 && o.Steps[0].Op == "parse" && o.Steps[0].JSON != st.JSON {
+			st.OK, st.Why = false, "the JSON form changed along the conversions (was "+o.Steps[0].JSON+")"
+		}
 		if !st.OK {
 			o.OK = false
 		}
